@@ -296,9 +296,17 @@ func (s *Stage) Receive(file *sts.Partial, reader io.Reader) (err error) {
 	if _, err = fh.Seek(part.Beg, 0); err != nil {
 		return
 	}
-	_, err = io.Copy(fh, reader)
+	var nWritten int64
+	nWritten, err = io.Copy(fh, reader)
 	fh.Close()
 	if err != nil {
+		return
+	}
+	if nWritten != part.End-part.Beg {
+		// The stream ended early; don't record a range we don't have
+		err = fmt.Errorf(
+			"incomplete part for %s (%d:%d): only %d bytes received",
+			file.Name, part.Beg, part.End, nWritten)
 		return
 	}
 
